@@ -123,9 +123,16 @@ def run_contract_paths(chk: Check, tier: str, rnd, work, obs):
     orig_extend = Path.extend_path
     dropped = []
 
+    lost_own = []
+
     def extend_path(self, parent):
+        before = list(self.conditions)
         orig_extend(self, parent)
         have = {c.get_id() for c in self.conditions}
+        # ... nor lose what the path had been given before it was attached to the state (the sender restriction of a target call)
+        gone = [c for c in before if c.get_id() not in have]
+        if gone:
+            lost_own.append([str(c)[:200] for c in gone[:3]])
         missing = [c for c in parent.conditions if c.get_id() not in have]
         chk.count("path_extensions_checked")
         if missing:
@@ -147,9 +154,16 @@ def run_contract_paths(chk: Check, tier: str, rnd, work, obs):
         for _ in range(2 if tier == "quick" else 20):
             m = invgen.gen_machine(rnd, depth=rnd.choice([1, 2]))
             run_contract(m.test, others=[m.target], cli=("--invariant-depth", str(m.depth)))
+        # target calls restricted to configured senders (targetSender / excludeSender): the restriction is a constraint of the path
+        for F in (invgen.Filters(t_senders=[invgen.OWNER]), invgen.Filters(x_senders=[invgen.OWNER]), invgen.Filters(t_senders=[invgen.OWNER, invgen.OTHER])):
+            m = invgen.gen_machine(rnd, depth=1, fns=invgen.gen_functions(rnd, 2), filters=F)
+            run_contract(m.test, others=[m.target] + ([m.dummy] if m.dummy else []), cli=("--invariant-depth", "1"))
     finally:
         hmain.run_message = orig
         Path.extend_path = orig_extend
+    if lost_own:
+        chk.violation("extend-loses-own-condition", f"{len(lost_own)} path(s) lost constraints they already carried when they were attached to their start state "
+                      f"(e.g. the sender restriction of an invariant target call): {lost_own[0]}", {"examples": lost_own[:5]})
     if dropped:
         n, sliced, ex3 = dropped[0]
         chk.violation("extend-drops-condition", f"{len(dropped)} path(s) extending a {'sliced ' if sliced else ''}state of {n} constraints do not carry all of them "
